@@ -227,6 +227,8 @@ type Sim struct {
 	issued          int
 	scriptLose      string
 	lastLeader      int
+	dir             *directed
+	skipFinale      bool
 	rconfAdd        bool
 	joiner          int // node id waiting to be started after rconf add
 	pendingCrash    []string
@@ -399,8 +401,9 @@ func (s *Sim) run() {
 	}
 	s.res.Clients = s.cs
 
+	s.initDirected()
 	s.mainLoop()
-	if s.res.Harness == "" && len(s.res.Panics) == 0 {
+	if s.res.Harness == "" && len(s.res.Panics) == 0 && !s.skipFinale {
 		s.runFinale()
 	}
 	s.res.TraceHash = s.h
@@ -625,9 +628,8 @@ func (s *Sim) collect() {
 		out := inc.outbox
 		inc.outbox = nil
 		s.mu.Unlock()
-		if inc.dead {
-			continue
-		}
+		// (what a process handed to its transport before it was killed may
+		// still arrive: Send stops queueing the instant the process is dead)
 		for _, m := range out {
 			l := s.getLink(m.From, m.To)
 			l.q = append(l.q, qmsg{m: m, from: inc, emitStep: s.step, emitAt: now})
@@ -800,6 +802,9 @@ func (s *Sim) eligibleNodes() []int {
 	var out []int
 	for _, ns := range s.nodes {
 		if s.isLive(ns) && !ns.removed && ns.view.ok && ns.view.lead != 0 {
+			if s.dir != nil && s.dir.allowed != nil && !s.dir.allowed[ns.id] {
+				continue
+			}
 			if s.k.OnePerNode && s.busy(ns.id) {
 				continue
 			}
@@ -923,8 +928,17 @@ func (s *Sim) mainLoop() {
 			s.res.StepLimit = true
 			return
 		}
+		if s.dir != nil && s.res.Diverge != nil {
+			// replicas already disagree: bringing them together again would only
+			// make raft abort on a conflict with a committed entry
+			s.skipFinale = true
+			return
+		}
 		s.step++
 		s.res.Steps++
+		if s.dirStep() {
+			continue
+		}
 		if s.fireScript() {
 			continue
 		}
@@ -984,10 +998,23 @@ func (s *Sim) deathSig() string {
 		return p + "/node-death/after-rconf-add-with-snapshot"
 	case s.rconfAdd:
 		return p + "/node-death/after-rconf-add"
+	case s.restartedAfterLoss():
+		return p + "/node-death/after-restart-that-lost-unsynced-writes"
 	case s.lastCmdClass != "":
 		return p + "/node-death/" + s.lastCmdClass
 	}
 	return p + "/node-death/idle"
+}
+
+// restartedAfterLoss: some node runs on a crash image in which unsynced
+// sectors did not survive.
+func (s *Sim) restartedAfterLoss() bool {
+	for _, ns := range s.nodes {
+		if ns.restarts > 0 && ns.image.lost > 0 {
+			return true
+		}
+	}
+	return false
 }
 
 // snapshotDue: the log may outgrow the snapshot threshold during the next
@@ -1069,6 +1096,7 @@ func (s *Sim) applyDeliver(l *link) {
 		dst.gotMsgSnap = true
 		s.probe("follower-needed-msgsnap")
 	}
+	s.dirOnDeliver(m, dst)
 	inc := dst.inc
 	go func() {
 		defer s.recoverNode(inc, "process")
